@@ -3,12 +3,15 @@
 use serde_json::{json, Value};
 use std::collections::HashMap;
 use std::panic::{catch_unwind, AssertUnwindSafe};
+use std::sync::atomic::{AtomicUsize, Ordering};
 use std::sync::mpsc::channel;
 use std::time::Duration;
 use vh::util::*;
 use vrp_core::algorithms::clustering::dbscan::create_clusters;
 use vrp_core::algorithms::clustering::kmedoids::{create_hierarchical_kmedoids, create_kmedoids};
 use vrp_core::algorithms::lkh::{lkh_optimize, AdjacencySpec, Cost, Edge, Node};
+
+static TIMEOUTS: AtomicUsize = AtomicUsize::new(0);
 
 struct Adj {
     cost: Vec<Vec<f64>>,
@@ -72,6 +75,10 @@ pub fn run_case(case: &Value) -> Value {
             json!({ "clusters": out })
         }
         "lkh" => {
+            // every timed-out run leaves a spinning thread behind: after a few of them stop running the search
+            if TIMEOUTS.load(Ordering::SeqCst) >= 6 {
+                return json!({ "skipped": true });
+            }
             let cost: Vec<Vec<f64>> =
                 matrix_of(&case["cost"]).into_iter().map(|r| r.into_iter().map(|x| x as f64).collect()).collect();
             let nbr: Vec<Vec<usize>> = case["nbr"].as_array().unwrap().iter().map(usizes_of).collect();
@@ -95,7 +102,13 @@ pub fn run_case(case: &Value) -> Value {
             match rx.recv_timeout(Duration::from_millis(limit)) {
                 Ok(Ok(paths)) => json!({ "paths": paths }),
                 Ok(Err(msg)) => panic!("{}", msg),
-                Err(_) => json!({ "timeout": true }),
+                Err(_) => {
+                    // asymmetric matrices are outside the property and may legitimately cycle: not counted
+                    if case["shape"].as_str() != Some("malformed-asymmetric") {
+                        TIMEOUTS.fetch_add(1, Ordering::SeqCst);
+                    }
+                    json!({ "timeout": true })
+                }
             }
         }
         "kmedoids" => {
